@@ -47,7 +47,8 @@ def succDay (dt : Date) : Date :=
 def parseDate (tok : String) : Option Date :=
   match (tok.trimAscii.toString).splitOn "/" with
   | [ys, ms, ds] =>
-    if ys.length == 4 && ms.length == 2 && ds.length == 2 then
+    if ys.length == 4 && ms.length == 2 && ds.length == 2 &&
+        ys.all Char.isDigit && ms.all Char.isDigit && ds.all Char.isDigit then   -- `toNat?` alone would also read "20_0"
       match ys.toNat?, ms.toNat?, ds.toNat? with
       | some y, some m, some d =>
         let dt : Date := { y := y, m := m, d := d }
